@@ -82,6 +82,11 @@ SqlModel(S, fs, R) ==
     /\ Len(R) = Min(SqlN(fs), Cardinality(SqlUnion(S, fs)))
     /\ \A y \in SqlUnion(S, fs) \ Range(R) : \A k \in DOMAIN R : ~(Ev(y).ts > Ev(R[k]).ts)
 
+\* C12, the plain count: never more items than the filters' effective limits add up to (whatever else went wrong)
+RECURSIVE SumEff(_, _)
+SumEff(fs, J) == IF J = {} THEN 0 ELSE LET j == CHOOSE x \in J : TRUE IN Eff(fs[j]) + SumEff(fs, J \ {j})
+AtMostLimit(fs, R) == Len(R) <= SumEff(fs, Live(fs))
+
 QueryOK(S, fs, R) == Sound(S, fs, R) /\ Complete(S, fs, R) /\ Multiplicity(S, fs, R) /\ LimitOK(S, fs, R)
 
 \* which clauses fail (for verdicts)
@@ -92,6 +97,10 @@ QueryVerdict(S, fs, R) ==
     \cup (IF Multiplicity(S, fs, R) THEN {} ELSE {"C02_Multiplicity"})
     \cup (IF ~Sound(S, fs, R) \/ ~Multiplicity(S, fs, R) \/ LimitOK(S, fs, R) THEN {}
           ELSE IF LimitOKG(S, fs, R, FALSE) THEN {"C12_Limit_OnlyDelegatedMissing"} ELSE {"C12_Limit"})
+    \cup (IF AtMostLimit(fs, R) THEN {} ELSE {"C12_AtMostLimit"})
+\* an answer during which the storage engine failed (a transient error while rows were fetched): it may be cut short - a
+\* prefix of the newest-first order - so completeness is not asked of it; everything else is
+FaultedVerdict(S, fs, R) == QueryVerdict(S, fs, R) \ {"C02_Complete", "C02_Complete_OnlyDelegatedMissing"}
 
 \* C01, "filter contents are pure data": the statement / generated code the storage engine is given depends only on
 \* the shape of the filter (which fields are present), never on the values.  P is a set of <<shape, skeleton>> pairs
